@@ -288,6 +288,13 @@ func (u *Universe) SortOf(t types.Type) Sort {
 	}
 	switch tt := t.(type) {
 	case *types.Named:
+		if tt.Obj().Pkg() == nil && (tt.Obj().Name() == "$dom" || tt.Obj().Name() == "$val") {
+			mt := tt.Underlying().(*types.Map)
+			if tt.Obj().Name() == "$dom" {
+				return ArraySort(u.SortOf(mt.Key()), SBool)
+			}
+			return ArraySort(u.SortOf(mt.Key()), u.SortOf(mt.Elem()))
+		}
 		if st, ok := tt.Underlying().(*types.Struct); ok {
 			return Sort(u.structInfo(tt, st).Name)
 		}
